@@ -171,12 +171,126 @@ def run_family(chk, how, nsample, nhist):
 		chk.case("history", gen_history(rng, how), "history")
 
 
+def run_self_join(chk, spec):
+	"""the same Table object on both sides, the left key columns differing from the right ones (manager = id)"""
+	T = common.mk_table(spec["table"])
+	J.check_join(chk, chk.pid, "sampled", spec["how"], T, T, spec["lon"], spec["ron"], key_mode=spec["key_mode"], expect="many_to_many", label="self",
+		sig=("self", spec["how"], len(spec["lon"]), spec["key_mode"], tuple(a == b for a, b in zip(spec["lon"], spec["ron"]))))
+
+
+def run_derived_right(chk, spec):
+	"""a right table DERIVED from one that an earlier join (with an expectation) has already seen: whatever that join learnt about its keys says nothing about
+	the derived table (rows repeated by stacking / gathering, keys edited in place, rows re-ordered by a multi-key sort)"""
+	import random
+	rng = random.Random(spec["seed"])
+	L = common.mk_table(spec["left"])
+	R = common.mk_table(spec["right"])
+	how = spec["how"]
+	fn = {"inner": L.inner_join, "left": L.join, "full": L.full_join}[how]
+	first = call(fn, R, ["k"], ["r"], expect=spec["first_expect"])      # may be rejected: that is part of the history
+	d = spec["derive"]
+	nr = len(R)
+	if d == "stack":
+		o = call(lambda: R << R)
+	elif d == "gather":
+		o = call(lambda: R[Vector([rng.randrange(nr) for _ in range(nr + 2)])]) if nr else None
+	elif d == "same":
+		o = call(lambda: R)
+	elif d == "copy-then-edit":
+		o = call(R.copy)
+		if o.ok and nr > 1:
+			call(lambda: o.value["r"].__setitem__(0, o.value["r"]._underlying[-1]))
+	elif d == "edit-in-place":
+		o = call(lambda: R)
+		if nr > 1:
+			call(lambda: R["r"].__setitem__(0, R["r"]._underlying[-1]))
+	elif d == "sort-two-keys":
+		o = call(lambda: R.sort_by(["g", "r"]))
+	elif d == "sort-key":
+		o = call(lambda: R.sort_by("r", reverse=rng.random() < 0.5))
+	else:
+		o = call(lambda: R[[True] * nr]) if nr else None
+	if o is None or not o.ok or not isinstance(o.value, Table) or not o.value.cols():
+		chk.skip("derived-right-unavailable")
+		return
+	R2 = o.value
+	if d == "stack" and "r" not in R2.column_names() and len(R2.cols()) == 3:
+		for j, nm in enumerate(["g", "r", "rid"]):      # (row stacking gives unnamed columns: name them again through their views)
+			call(lambda: setattr(R2.cols()[j], "name", nm))
+	if "r" not in R2.column_names():
+		chk.counters[f"derived-right-lost-key-column:{d}"] += 1
+		chk.skip("derived-right-without-key-column")
+		return
+	for how2 in spec["then"]:
+		J.check_join(chk, chk.pid, "sampled", how2, L, R2, ["k"], ["r"], key_mode=spec["key_mode"], expect="many_to_many", label=f"after-{spec['first_expect']}-join-then-{d}",
+			sig=("derived-right", how, how2, spec["first_expect"], d, first.ok), strict=True)
+
+
+def run_label_accessor(chk, spec):
+	"""column labels that are not strings (1, True, 1.0, 2023, 2023.0): a key given by a label's sanitised spelling reaches that column, whatever other
+	labels were sanitised earlier in the process"""
+	def lab(x):
+		return {"1": 1, "True": True, "1.0": 1.0, "2023": 2023, "2023.0": 2023.0, "0": 0, "False": False}[x]
+	def spelling(x):
+		import re
+		s0 = re.sub(r"[^a-z0-9_]+", "_", str(x).lower()).strip("_")
+		return ("c" + s0) if s0[:1].isdigit() else s0
+	for first in spec["order"]:
+		t0 = Table([Vector([1, 2], name=lab(first)), Vector([5, 6], name="z")])
+		call(lambda: t0[spelling(lab(first))])
+		call(dir, t0)
+	lname, rname = lab(spec["left_label"]), lab(spec["right_label"])
+	L = Table([Vector([1, 2, 3], name=lname), Vector(["L0", "L1", "L2"], name="lid")])
+	R = Table([Vector([3, 1, 1], name=rname), Vector(["R0", "R1", "R2"], name="rid")])
+	o = call(L.inner_join, R, spelling(lname), spelling(rname), expect="many_to_many")
+	chk.judged("sampled", ("label-accessor", spec["left_label"], spec["right_label"], tuple(spec["order"])))
+	if not o.ok:
+		chk.fail("the join is computed for every admissible input", f"join/raises/inner/label-accessor/{type(o.exc).__name__}",
+			f"{spec!r}: join on {spelling(lname)!r} / {spelling(rname)!r} (labels {lname!r} / {rname!r}) raised {o!r}")
+		return
+	names, rows = J.result_rows(o.value)
+	exp = [(1, "L0", 1, "R1"), (1, "L0", 1, "R2"), (3, "L2", 3, "R0")]
+	if not J.rows_same(rows, exp):
+		chk.fail("join rows equal the nested-loop definition, in the documented order", "join/wrong-rows/inner/label-accessor", f"{spec!r}: rows {rows!r} vs {exp!r}")
+	elif [repr(x) for x in names] != [repr(x) for x in (lname, "lid", rname, "rid")]:
+		chk.fail("output carries all left columns then all right columns under their original names", "join/column-names/inner/label-accessor", f"{spec!r}: names {names!r}")
+
+
 def run_chain(chk, spec):
 	from . import c10
 	c10.run_chain(chk, spec)
 
 
 RUNNERS["chain"] = run_chain
+RUNNERS["self_join"] = run_self_join
+RUNNERS["derived_right"] = run_derived_right
+RUNNERS["label_accessor"] = run_label_accessor
+
+
+def extra_cases(chk, how, count):
+	"""self joins, derived right tables (shared by the inner / left / full families)"""
+	rng = chk.rng
+	for _ in range(count):
+		n = rng.choice([2, 3, 4, 6])
+		ids = list(range(1, n + 1))
+		mgr = [rng.choice(ids + [None, 99]) for _ in range(n)]
+		dept = [rng.choice(["d1", "d2"]) for _ in range(n)]
+		tb = {"names": ["id", "mgr", "dept", "lid"], "cols": [ids, mgr, dept, [f"E{i}" for i in range(n)]]}
+		lon, ron = rng.choice([(["mgr"], ["id"]), (["dept", "mgr"], ["dept", "id"]), (["mgr", "dept"], ["id", "dept"]), (["id"], ["id"]), (["dept"], ["dept"])])
+		chk.case("self_join", {"table": tb, "lon": lon, "ron": ron, "how": how, "key_mode": rng.choice(["name", "vector"])}, "self-join")
+	for _ in range(count):
+		nl, nr = rng.choice([1, 2, 3, 4]), rng.choice([2, 3, 4])
+		rk = rng.sample([1, 2, 3, 4, 5], nr) if rng.random() < 0.6 else [rng.choice([1, 2, 3]) for _ in range(nr)]
+		left = {"names": ["k", "lid"], "cols": [[rng.choice([1, 2, 3, 4, None]) for _ in range(nl)], [f"L{i}" for i in range(nl)]]}
+		right = {"names": ["g", "r", "rid"], "cols": [[rng.choice(["x", "y"]) for _ in range(nr)], rk, [f"R{i}" for i in range(nr)]]}
+		derive = rng.choice(["stack", "gather", "same", "copy-then-edit", "edit-in-place", "sort-two-keys", "sort-two-keys", "sort-key", "mask"])
+		if derive == "sort-two-keys":
+			# the join key is the SECONDARY sort key: its equal values are not adjacent after the sort
+			nr = rng.choice([3, 4, 5, 6])
+			right = {"names": ["g", "r", "rid"], "cols": [[["x", "y", "z"][i % rng.choice([2, 3])] for i in range(nr)], [rng.choice([1, 2]) for _ in range(nr)], [f"R{i}" for i in range(nr)]]}
+		chk.case("derived_right", {"left": left, "right": right, "how": how, "first_expect": rng.choice(["many_to_one", "one_to_one", "many_to_many", "one_to_many"]),
+			"derive": derive, "then": rng.sample(["inner", "left", "full"], 2) if how != "inner" else ["inner"],
+			"key_mode": rng.choice(["name", "vector"]), "seed": rng.randrange(10**9)}, "derived-right")
 
 
 def run(chk):
@@ -184,3 +298,9 @@ def run(chk):
 	run_family(chk, HOW, 500 if chk.quick() else 2500, 150 if chk.quick() else 800)
 	from . import c10
 	c10.chain_cases(chk, 150 if chk.quick() else 1000, ["inner"], ["inner"])
+	extra_cases(chk, HOW, 150 if chk.quick() else 1000)
+	labels = ["1", "True", "1.0", "2023", "2023.0", "0", "False"]
+	for a in labels:
+		for b in labels:
+			for order in ([a, b], [b, a], [x for x in labels if x not in (a, b)][:2] + [a]):
+				chk.case("label_accessor", {"left_label": a, "right_label": b, "order": order}, "label-accessor")
